@@ -389,10 +389,30 @@ impl Node {
         }
 
         for ac in another_root_children {
-            self.append_child(ac)?
+            self.unite_child(ac, allow_override_handler)?
         }
 
         Ok(())
+    }
+
+    /// add `another_child` as a child, or unite it with the existing child of the same pattern
+    /// just as `register_handler` does: a second `Param` child could never be reached and
+    /// whether a route is accepted must not depend on the order of routing items
+    fn unite_child(&mut self, another_child: Node, allow_override_handler: bool) -> Result<(), String> {
+        let pattern = another_child.pattern.clone().expect("Invalid child node: Child node must have pattern");
+        match self.machable_child_mut(pattern) {
+            None => self.append_child(another_child),
+            Some(child) => {
+                child.append_fangs(another_child.fangses);
+                if let Some(h) = another_child.handler {
+                    child.set_handler(h, allow_override_handler)?;
+                }
+                for ac in another_child.children {
+                    child.unite_child(ac, allow_override_handler)?
+                }
+                Ok(())
+            }
+        }
     }
 
     /// MUST be called after all handlers are registered
